@@ -201,3 +201,39 @@ fn c02_header_jwk_is_not_a_trust_anchor() {
     kani::cover!(true, "end");
     std::mem::forget(v);
 }
+
+/// the holder-key confirmation (cnf) used later for key binding comes from the VERIFIED claims,
+/// never from the unverified copy
+#[kani::proof]
+#[kani::unwind(4)]
+#[kani::stub(alloc::fmt::format, fmt_stub)]
+fn c02_cnf_taken_from_verified_claims() {
+    let x = sym_str::<1>(b'a', b'z');
+    let xb = x.as_bytes()[0];
+    let mut jwk = JMap::new();
+    put(&mut jwk, "kty", jstr("EC"));
+    put(&mut jwk, "x", JValue::String(x));
+    let mut cnf = JMap::new();
+    put(&mut cnf, "jwk", JValue::Object(jwk));
+    let mut claims = vouched_claims("vv".to_string());
+    put(&mut claims, "cnf", JValue::Object(cnf));
+    jm::register(JWT, Header::new(Algorithm::ES256), claims, RESOLVER_KEY);
+    jm::set_now(1000);
+    jm::expect(0, true);
+    // the unverified copy claims another holder key
+    let mut evil_jwk = JMap::new();
+    put(&mut evil_jwk, "kty", jstr("EC"));
+    put(&mut evil_jwk, "x", jstr("EVIL"));
+    let mut evil_cnf = JMap::new();
+    put(&mut evil_cnf, "jwk", JValue::Object(evil_jwk));
+    let mut unverified = unverified_payload();
+    put(&mut unverified, "cnf", JValue::Object(evil_cnf));
+    let mut v = mk_verifier(unverified, Fam::Ec);
+    let ok = finish(v.verify_sd_jwt(Some("ES256".to_string())));
+    assert!(ok, "C02.h1 honest token rejected");
+    let got = v._holder_public_key_payload.as_ref().and_then(|c| c.get("jwk")).and_then(|j| j.get("x")).and_then(|s| s.as_str());
+    assert!(match got { Some(s) => s.len() == 1 && s.as_bytes()[0] == xb, None => false },
+            "C02.h2 the confirmed holder key must be the one in the signature-verified payload");
+    kani::cover!(true, "end");
+    std::mem::forget(v);
+}
